@@ -1,1 +1,140 @@
-//! Untyped expression generator (C01, C02, C19): anything goes.
+//! Untyped expression generator (C01, C02, C19): anything goes — names, arities and operand
+//! kinds are random, so most programs are ill-typed.
+
+use super::{gen_bytes, gen_finite_f64, gen_i64, gen_string, gen_u64};
+use crate::chooser::Chooser;
+use crate::model::expr::{b, Mac, Op, E};
+use crate::model::lit;
+use crate::model::{F, V};
+
+pub struct Pool {
+    pub vars: Vec<String>,
+    pub funcs: Vec<String>,
+    pub fields: Vec<String>,
+    /// allow struct literals
+    pub structs: bool,
+    /// allow odd literal spellings through E::Raw
+    pub raw_literals: bool,
+}
+
+impl Pool {
+    pub fn c02() -> Pool {
+        let vars = ["i0", "u0", "d0", "s0", "y0", "b0", "n0", "l0", "m0v", "dur0", "ts0", "fn0", "x", "y", "unbound"].iter().map(|s| s.to_string()).collect();
+        let mut funcs: Vec<String> = crate::model::eval::BUILTINS.iter().map(|s| s.to_string()).collect();
+        funcs.extend(crate::model::eval::HOST_FUNCS.iter().map(|s| s.to_string()));
+        funcs.extend(["nosuchfn", "has", "all", "exists", "exists_one", "map", "filter"].iter().map(|s| s.to_string()));
+        Pool { vars, funcs, fields: ["a", "b", "k", "size", "f_1", "contains"].iter().map(|s| s.to_string()).collect(), structs: true, raw_literals: true }
+    }
+}
+
+pub fn gen_literal(u: &mut Chooser, raw: bool) -> E {
+    match u.below(if raw { 12 } else { 8 }) {
+        0 => E::Lit(V::Int(gen_i64(u))),
+        1 => E::Lit(V::Bool(u.flip())),
+        2 => E::Lit(V::Null),
+        3 => E::Lit(V::UInt(gen_u64(u))),
+        4 => E::Lit(V::Float(F(gen_finite_f64(u)))),
+        5 => E::Lit(V::Str(gen_string(u))),
+        6 => E::Lit(V::Bytes(gen_bytes(u))),
+        7 => E::Lit(V::Int(u.range(0, 5))),
+        8 => E::Raw(match u.below(8) {
+            0 => format!("0x{:X}", gen_u64(u) >> u.below(64)),
+            1 => format!("0x{:x}u", gen_u64(u)),
+            2 => format!("{}e{}", u.range(0, 99), u.range(-400, 400)),
+            3 => format!(".{}", u.range(0, 999)),
+            4 => format!("{}U", u.range(0, 99)),
+            5 => format!("{}.{}E+{}", u.range(0, 9), u.range(0, 9), u.range(0, 30)),
+            6 => "9223372036854775808".to_string(),
+            _ => "18446744073709551616u".to_string(),
+        }),
+        9 => {
+            // odd string spellings
+            let body: String = gen_string(u).chars().filter(|c| !matches!(c, '\'' | '"' | '\\' | '\n' | '\r')).collect();
+            E::Raw(match u.below(6) {
+                0 => format!("'{body}'"),
+                1 => format!("r'{body}\\n'"),
+                2 => format!("'''{body}'''"),
+                3 => format!("\"\"\"{body}\n\"\"\""),
+                4 => format!("R\"{body}\""),
+                _ => format!("'\\u00e9\\x41\\101\\U0001F600{body}'"),
+            })
+        }
+        10 => {
+            let body: String = gen_string(u).chars().filter(|c| !matches!(c, '\'' | '"' | '\\' | '\n' | '\r')).collect();
+            E::Raw(match u.below(5) {
+                0 => format!("b'{body}'"),
+                1 => format!("B\"{body}\\xff\\000\""),
+                2 => format!("br'{body}\\x'"),
+                3 => format!("b'''{body}'''"),
+                _ => format!("b'\\n\\t{body}'"),
+            })
+        }
+        _ => E::Raw(lit::str_lit(&gen_string(u))),
+    }
+}
+
+pub fn gen_untyped(u: &mut Chooser, depth: usize, p: &Pool) -> E {
+    if depth == 0 {
+        return match u.below(3) {
+            0 => gen_literal(u, p.raw_literals),
+            1 => E::Var(u.pick(&p.vars).clone()),
+            _ => gen_literal(u, false),
+        };
+    }
+    let d = depth - 1;
+    let g = |u: &mut Chooser| gen_untyped(u, d, p);
+    match u.below(24) {
+        0 => gen_literal(u, p.raw_literals),
+        1 => E::Var(u.pick(&p.vars).clone()),
+        2..=6 => {
+            let op = *u.pick(&Op::ALL);
+            E::bin(op, g(u), g(u))
+        }
+        7 => {
+            // prefix runs
+            let n = 1 + u.below(3);
+            let mut e = g(u);
+            let neg = u.flip();
+            for _ in 0..n {
+                e = if neg { E::Neg(b(e)) } else { E::Not(b(e)) };
+            }
+            e
+        }
+        8 => E::Cond(b(g(u)), b(g(u)), b(g(u))),
+        9 => E::Index(b(g(u)), b(g(u))),
+        10 => E::Select(b(g(u)), u.pick(&p.fields).clone()),
+        11 => E::Has(b(g(u)), u.pick(&p.fields).clone()),
+        12 => {
+            let n = u.below(4);
+            E::List((0..n).map(|_| g(u)).collect())
+        }
+        13 => {
+            let n = u.below(3);
+            E::Map((0..n).map(|_| (g(u), g(u))).collect())
+        }
+        14 | 15 | 16 => {
+            let n = u.below(5);
+            E::Call(u.pick(&p.funcs).clone(), None, (0..n).map(|_| g(u)).collect())
+        }
+        17 | 18 | 19 => {
+            let n = u.below(4);
+            let r = g(u);
+            E::Call(u.pick(&p.funcs).clone(), Some(b(r)), (0..n).map(|_| g(u)).collect())
+        }
+        20 | 21 | 22 => {
+            let m = *u.pick(&[Mac::All, Mac::Exists, Mac::ExistsOne, Mac::ExistsOneCamel, Mac::Map, Mac::Map, Mac::Filter]);
+            let range = g(u);
+            let var = u.pick(&["x", "y", "i0", "s0"]).to_string();
+            let body = if m == Mac::Map && u.flip() { vec![g(u), g(u)] } else { vec![g(u)] };
+            E::Macro(m, b(range), var, body)
+        }
+        _ => {
+            if p.structs {
+                let n = u.below(3);
+                E::Struct(u.pick(&["T", "a.b.T", ".T", "google.protobuf.Value"]).to_string(), (0..n).map(|_| (u.pick(&p.fields).clone(), g(u))).collect())
+            } else {
+                g(u)
+            }
+        }
+    }
+}
